@@ -427,7 +427,7 @@ def rule_histories(ctx):
                                                                     name="id:UNSET", open=False)), alias=ident("X"))
 
     n = 0
-    for history in (("set a", "set b"), ("set a", "unset"), ("set a", "unset", "set b")):
+    for history in (("set a", "set b"), ("set a", "unset"), ("set a", "unset", "set b"), ("set t",)):
         hooks, lits = [], []
 
         def fac():
@@ -438,7 +438,9 @@ def rule_histories(ctx):
         def run(I, history=history):
             v = I.construct(ClsRef("fakesnow.variables.Variables"), [], {}, None)
             col = NodeV("Column", {"this": ident("X")}, name="col:X", open=False)
-            vals = {"a": lit("1", False), "b": lit("2", False)}
+            vals = {"a": lit("1", False), "b": lit("2", False),
+                    # one variable whose value is a parenthesised list (an IN-list): the whole list is the value
+                    "t": node("Tuple", "in_list", expressions=Lst([lit("10", False), lit("20", False), lit("30", False)]))}
             lits.append(vals)
             for step in history:
                 st = unset_stmt() if step == "unset" else set_stmt(col, vals[step[-1]])
@@ -458,14 +460,16 @@ def rule_histories(ctx):
                 return None
 
             got = [of(v) for v in h.inserted]
-            final = {"set a": "a", "set b": "b", "unset": None}[history[-1]]
+            final = {"set a": "a", "set b": "b", "unset": None, "set t": "t"}[history[-1]]
             want = [final] if final else []
             ok = got == want
             ctx.ob("C15.k", f"after {'; '.join(history)} a reference to x inserts {final or 'nothing'}", ok, loc, str(got))
             if not ok:
                 ctx.violation("C15.k", "variables", "Variables.inline_variables", f"after {'; '.join(history)}: inserts {got}", loc,
                               f"after the history `{'; '.join(history)}` the substitution of `$x` inserts the value(s) of {got} (in that order) "
-                              f"instead of {want}: a later SET must replace the earlier value and UNSET must forget it")
+                              f"instead of {want}: "
+                              + ("the value of a variable is the whole expression after `=` — `SET ids = (10, 20, 30)` stores the list, not its first member"
+                                 if history == ("set t",) else "a later SET must replace the earlier value and UNSET must forget it"))
     ctx.floor("C15.k histories", n, 3)
 
 
